@@ -123,22 +123,29 @@ func getCertificateInfo(c *x509.Certificate) (Info, error) {
 
 func x509KeyUsages(ku x509.KeyUsage) []string {
 	var ss []string
-	for u, s := range map[x509.KeyUsage]string{
-		x509.KeyUsageDigitalSignature:  "digitalSignature",
-		x509.KeyUsageContentCommitment: "contentCommitment",
-		x509.KeyUsageKeyEncipherment:   "keyEncipherment",
-		x509.KeyUsageDataEncipherment:  "dataEncipherment",
-		x509.KeyUsageKeyAgreement:      "keyAgreement",
-		x509.KeyUsageCertSign:          "certSign",
-		x509.KeyUsageCRLSign:           "cRLSign",
-		x509.KeyUsageEncipherOnly:      "encipherOnly",
-		x509.KeyUsageDecipherOnly:      "decipherOnly",
-	} {
-		if ku&u == u {
-			ss = append(ss, s)
+	for _, u := range keyUsageNames {
+		if ku&u.usage == u.usage {
+			ss = append(ss, u.name)
 		}
 	}
 	return ss
+}
+
+// keyUsageNames lists the key usages in the bit order of RFC 5280, so that the
+// displayed order is a function of the certificate alone.
+var keyUsageNames = []struct {
+	usage x509.KeyUsage
+	name  string
+}{
+	{x509.KeyUsageDigitalSignature, "digitalSignature"},
+	{x509.KeyUsageContentCommitment, "contentCommitment"},
+	{x509.KeyUsageKeyEncipherment, "keyEncipherment"},
+	{x509.KeyUsageDataEncipherment, "dataEncipherment"},
+	{x509.KeyUsageKeyAgreement, "keyAgreement"},
+	{x509.KeyUsageCertSign, "certSign"},
+	{x509.KeyUsageCRLSign, "cRLSign"},
+	{x509.KeyUsageEncipherOnly, "encipherOnly"},
+	{x509.KeyUsageDecipherOnly, "decipherOnly"},
 }
 
 func x509EKUs(ekus []x509.ExtKeyUsage, unknownEKUs []asn1.ObjectIdentifier) []string {
